@@ -294,6 +294,14 @@ def _atom_nonneg(k):
     return bool(_NONNEG_PAT.search(k)) and 'isize' not in k
 
 
+def _closure_counter(e):
+    """inside a closure: `*captured` (a counter the closure steps once per call) or a plain field of the item it is given (`|(i, _)| i + 1`
+    after enumerate) - never a value computed from user integers (those are tainted and do not come here)"""
+    e = strip(e)
+    t = expr_str(e, -8)
+    return bool(re.fullmatch(r'(\(\*)?\(\*arg1\)\.\d+\)?', t) or re.fullmatch(r'\(?\*?arg[2-9]\)?\.\d+', t))
+
+
 def is_counter(e):
     """phi(const | self + const): a loop counter that advances by a constant per iteration"""
     e = strip(e)
@@ -846,6 +854,8 @@ def auto_discharge(fx, f, s, tainted_params):
                     return None
                 if op == 'Add' and (is_counter(a) and ub_ != INF and ub_ <= 64 or is_counter(b) and ua != INF and ua <= 64):
                     return 'D-LEN', 'loop counter advanced by a small constant once per consumed element'
+                if op == 'Add' and '::{closure' in f.name and (_closure_counter(a) and ub_ != INF and ub_ <= 64 or _closure_counter(b) and ua != INF and ua <= 64):
+                    return 'D-LEN', 'a counter captured by the closure, or the index the item carries, advanced by a small constant once per item of a collection held in memory'
                 if op == 'Add' and (is_counter(a) and _counted_by_helper(fx, b) or is_counter(b) and _counted_by_helper(fx, a)):
                     return 'D-LEN', 'position advanced by what a helper counted (itself a sum of small per-element steps over data held in memory)'
                 if ta == 'usize' or ta == 'u128' or ta == 'u64':
@@ -898,15 +908,69 @@ def len_atom_for(z, vec_expr):
     return None
 
 
+def _sum_of_own_item_widths(recv, n, fx=None, depth=0):
+    """n is built from nothing but 0, a loop carry, additions and the item widths that `recv.iter8()` yields"""
+    def base(e):
+        t = expr_str(e, -30)
+        m = re.search(r'(bitstr_ext::rest_bits\(.*?\)\) as Continue\)\.0|arg\d+)', t)
+        return m.group(1) if m else None
+    rb = base(recv)
+    if rb is None:
+        return False
+    widths = 0
+    for y in expr_walk(n):
+        if not isinstance(y, tuple) or not y:
+            continue
+        if y[0] == 'const':
+            if isinstance(y[1], dict) and y[1].get('v') not in (0, 1, False, True):
+                return False
+        elif y[0] == 'bin':
+            if y[1] not in ('Add', 'AddWithOverflow'):
+                return False
+        elif y[0] == 'call':
+            c = y[1]
+            if c.endswith("Iter8<'a> as core::iter::traits::iterator::Iterator>::next"):
+                widths += 1
+            elif c == 'bitstr::Bitstr::iter8':
+                if base(y[2][0]) != rb:
+                    return False
+            elif c.endswith('::into_iter') or c == 'bitstr_ext::rest_bits' or c.endswith('Try>::branch') or c.endswith('::deref'):
+                pass
+            elif fx is not None and c in fx.fns and depth < 2 and '{closure' not in c:
+                # a scan moved into a helper that is given the bit-string: its result has to be such a sum over ITS argument
+                g = fx.fns[c]
+                hit = [k for k, a in enumerate(y[2]) if base(a) == rb]
+                if len(hit) != 1 or not _sum_of_own_item_widths(('arg', hit[0] + 1), g.expr_of_local(0), fx, depth + 1):
+                    return False
+                widths += 1
+            elif not (c.endswith('::into_iter') or c == 'bitstr_ext::rest_bits' or c.endswith('Try>::branch') or c.endswith('::deref')):
+                return False
+        elif y[0] == 'arg' and rb != 'arg%d' % y[1] and y[1] != 1:
+            return False
+    return widths >= 1
+
+
 def discharge_call(fx, f, s, tainted_params):
     kind, ops, c = s['kind'], s['ops'], s.get('callee', '')
     z, gtxt = build_zone(f, s['bb'], ops)
     k2 = kind.split(':')[1] if ':' in kind else kind
     if kind.startswith('call:'):
+        if k2 == 'index' and len(ops) == 2:
+            # D-FLOOR: a stack of the State sliced from the mark a context took of it (`flow_stack[ctx.fs_len..]`, also with a saved
+            # context: older marks are lower).  Context floor invariant: a stack never shrinks below the mark of the current context
+            # (C10.R1 / C11.R1 decide the truncations and the floored pops), so len() >= every live mark, whichever function asks
+            t0, t1 = expr_str(ops[0], -8), expr_str(ops[1], -10)
+            m0 = re.search(r'\.(flow_stack|data_stack|loops|special|return_stack)\)?$', t0)
+            m1 = re.fullmatch(r'core::ops::range::RangeFrom::RangeFrom\{(.*)\.(fs_len|ds_len|ls_len|ss_ptr|rs_len)\}', t1)
+            pair = {'flow_stack': 'fs_len', 'data_stack': 'ds_len', 'loops': 'ls_len', 'special': 'ss_ptr', 'return_stack': 'rs_len'}
+            if m0 and m1 and pair[m0.group(1)] == m1.group(2) and not re.search(r'Add|Sub|Mul|\bcall\b', m1.group(1)):
+                return 'D-FLOOR', 'State.%s[<context>.%s..]: the context floor invariant' % (m0.group(1), m1.group(2))
         if k2 == 'unwrap':
             x = strip(ops[0])
             if isinstance(x, tuple) and x[0] == 'call':
                 n = x[1]
+                if n in ('bitstr::Bitstr::read', 'bitstr::Bitstr::peek') and len(x[2]) == 2 and _sum_of_own_item_widths(x[2][0], x[2][1], fx):
+                    return 'D-SCAN', 'the count is a sum of widths of items of the very bit-string it is cut from (iter8 of the receiver): at most its length'
                 if n.endswith('Vec::<T, A>::pop') and x[2]:
                     la = len_atom_for(z, x[2][0])
                     if la and z.lower(la, '0') >= 1:
